@@ -92,6 +92,16 @@ impl WorldC {
         self.server.update(d);
         let r = self.transport.update(d, &mut self.server);
         obs.count("op.tick_server");
+        // the hosted in-memory client is served by the application itself, like any listen server does
+        if let Some(lc) = self.local.as_mut() {
+            if !lc.is_disconnected() {
+                let _ = self.server.process_local_client(LOCAL_ID, lc);
+                for ch in 0..3u8 {
+                    while lc.receive_message(ch).is_some() {}
+                    while self.server.receive_message(LOCAL_ID, ch).is_some() {}
+                }
+            }
+        }
         self.pump_events(obs);
         if r.is_ok() {
             self.check_lockstep(obs);
@@ -108,6 +118,16 @@ impl WorldC {
         obs.count("oracle.C20.lockstep");
         let mut renet_ids = self.server.clients_id();
         renet_ids.sort();
+        // the hosted in-memory client belongs to the message layer only; it stays until the application removes it
+        if let Some(lc) = self.local.as_ref() {
+            if !lc.is_disconnected() {
+                obs.count("oracle.C20.local_client_untouched");
+                if !renet_ids.contains(&LOCAL_ID) {
+                    obs.violate("C20", "transport-removed-local-client", "after-update", format!("renet {:?}", renet_ids));
+                }
+            }
+        }
+        renet_ids.retain(|id| *id != LOCAL_ID);
         let known: Vec<u64> = (1..self.next_id).collect();
         let netcode_ids: Vec<u64> = known.iter().copied().filter(|id| self.transport.client_addr(*id).is_some()).collect();
         if renet_ids != netcode_ids {
@@ -116,11 +136,12 @@ impl WorldC {
         if self.transport.connected_clients() != netcode_ids.len() {
             obs.violate("C20", "layers-disagree-on-connected-clients", "count", format!("connected_clients {} ids {:?}", self.transport.connected_clients(), netcode_ids));
         }
-        let lingering = self.server.disconnections_id();
+        let mut lingering = self.server.disconnections_id();
+        lingering.retain(|id| *id != LOCAL_ID);
         if !lingering.is_empty() {
             obs.violate("C20", "disconnected-connection-left-in-message-layer", "after-update", format!("{:?}", lingering));
         }
-        let ev: Vec<u64> = self.ev_connected.iter().filter(|(_, c)| **c).map(|(id, _)| *id).collect();
+        let ev: Vec<u64> = self.ev_connected.iter().filter(|(id, c)| **c && **id != LOCAL_ID).map(|(id, _)| *id).collect();
         if ev != renet_ids {
             obs.violate("C20", "event-stream-disagrees-with-connected-clients", "after-update", format!("events {:?} renet {:?}", ev, renet_ids));
         }
@@ -142,7 +163,7 @@ impl WorldC {
                     if was {
                         obs.violate("C20", "connect-reported-twice", "events", format!("id {}", client_id));
                     }
-                    if client_id == 0 || client_id >= self.next_id {
+                    if (client_id == 0 || client_id >= self.next_id) && !(client_id == LOCAL_ID && self.local.is_some()) {
                         obs.violate("C20", "connect-with-unknown-id", "events", format!("id {}", client_id));
                     }
                     if let Some(j) = self.slot_of_id(client_id) {
@@ -394,12 +415,14 @@ impl WorldC {
                     1 => {
                         let server_had = self.transport.client_addr(id).is_some();
                         let s = &mut self.slots[j];
-                        if let Some((c, _)) = s.client.as_mut() {
+                        if let Some((c, t)) = s.client.as_mut() {
                             if !c.is_disconnected() {
                                 s.app_disconnected_client = true;
                                 if s.decided_side.is_none() {
                                     s.decided_side = Some(0);
-                                    s.decision_clean = s.to_server.is_empty() && server_had;
+                                    // (a handshake layer that has already timed out, unnoticed by the message layer until the next
+                                    // update, has no session to close any more: the server learns by its own timeout)
+                                    s.decision_clean = s.to_server.is_empty() && server_had && t.disconnect_reason().is_none();
                                 }
                             }
                             c.disconnect();
@@ -432,7 +455,8 @@ impl WorldC {
                         if self.transport.connected_clients() != 0 || !left.is_empty() {
                             obs.violate("C20", "disconnect-all-left-sessions", "netcode-layer", format!("still connected: {:?}", left));
                         }
-                        if self.server.has_connections() {
+                        let remote_left = self.server.clients_id().iter().chain(self.server.disconnections_id().iter()).any(|id| *id != LOCAL_ID);
+                        if remote_left {
                             obs.violate("C20", "disconnect-all-left-sessions", "message-layer", format!("connected {:?} disconnected-but-present {:?}", self.server.clients_id(), self.server.disconnections_id()));
                         }
                     }
@@ -443,6 +467,10 @@ impl WorldC {
                             }
                         }
                         self.server.disconnect_all();
+                        // the application closes its own in-memory client itself
+                        if let Some(lc) = self.local.as_mut() {
+                            self.server.disconnect_local_client(LOCAL_ID, lc);
+                        }
                     }
                 }
             }
